@@ -14,7 +14,8 @@ CLAIM = dict(
     text="Proved: (k+G)%1 = k%1 and k_to_1BZ(k+G) = k_to_1BZ(k) for integer G, exp(2 pi i (k+G).R) = exp(2 pi i k.R) (and "
          "the N-th-root-of-unity version for FFT grids), hence equal Fourier sums; tr(U^H X U) = tr X; chains of ANY number "
          "of inner factors (FormulaProduct; a transposed last factor is shown NOT invariant); D_H is covariant under every "
-         "unitary that mixes only states of exactly equal energy; Data_K.degen groups have >= 2 bands with internal gaps <= "
+         "unitary that mixes only states of exactly equal energy; a group trace is invariant when the group is closed "
+         "under the gauge's mixing and NOT when a 4-fold subspace is cut into two pairs; Data_K.degen groups have >= 2 bands with internal gaps <= "
          "threshold and the random gauge touches no other column.  GENERAL THEOREM (formula_expr_covariant): every "
          "expression built from blocks of Hamiltonian-gauge matrices by sums, products over the inner or outer set, "
          "Hermitian conjugation, scalar factors, element-wise functions of the two band energies and generalised "
@@ -53,7 +54,10 @@ RULE = ("corr: dyadic k/grid points with integer shifts of both signs, quarter-g
         "on systems with exact multiplets whose members differ (band-touching, PT-symmetric pairs H0/H0^T, H0 (x) 1_m with "
         "arbitrary external matrices): evaluate_k(quantities=all of available_quantities) with iband None / list / int / "
         "single quantity, evaluate_k(formula=...) traced over complete groups, evaluate_k(calculators=...), "
-        "evaluate_k_path; each for random_gauge on/off and k vs k+G, plus mutual consistency of the routes")
+        "evaluate_k_path; each for random_gauge on/off and k vs k+G, plus mutual consistency of the routes.  The calculators' grouping options degen_thresh in {1e-4, 1e-3, 0.05} x "
+        "degen_Kramers in {False, True} are exercised on systems with exact multiplets of size 2, 3, 4 and 6 at a grid "
+        "k-point (H0 (x) 1_m tuned so that multiplets touch), for all tabulators, product formulas and integrated "
+        "calculators")
 
 
 # ------------------------------------------------------------------------------------------------
@@ -342,17 +346,22 @@ def corr(ctx):
 ALLMAT = ("Ham", "AA", "BB", "CC", "SS")
 
 
-def tabulators():
+def tabulators(**opts):
+    """the 16 tabulators; opts (degen_thresh, degen_Kramers) are passed to every one of them"""
     from wannierberri.calculators import tabulate as T
+
+    def kf(d):
+        return dict(opts, kwargs_formula=d)
     return {
-        "energy": T.Energy(), "band_gradients": T.Velocity(), "berry_curvature": T.BerryCurvature(),
-        "berry_curvature_internal": T.BerryCurvature(kwargs_formula={"external_terms": False}),
-        "berry_curvature_external": T.BerryCurvature(kwargs_formula={"internal_terms": False}),
-        "spin": T.Spin(), "orbital_moment": T.OrbitalMoment(),
-        "orbital_moment_internal": T.OrbitalMoment(kwargs_formula={"external_terms": False}),
-        "der_berry_curvature": T.DerBerryCurvature(), "der2_berry_curvature": T.Der2BerryCurvature(),
-        "inv_mass": T.InvMass(), "der3E": T.Der3E(), "der_spin": T.DerSpin(), "der2_spin": T.Der2Spin(),
-        "der_orbital_moment": T.DerOrbitalMoment(), "der2_orbital_moment": T.Der2OrbitalMoment(),
+        "energy": T.Energy(**opts), "band_gradients": T.Velocity(**opts), "berry_curvature": T.BerryCurvature(**opts),
+        "berry_curvature_internal": T.BerryCurvature(**kf({"external_terms": False})),
+        "berry_curvature_external": T.BerryCurvature(**kf({"internal_terms": False})),
+        "spin": T.Spin(**opts), "orbital_moment": T.OrbitalMoment(**opts),
+        "orbital_moment_internal": T.OrbitalMoment(**kf({"external_terms": False})),
+        "der_berry_curvature": T.DerBerryCurvature(**opts), "der2_berry_curvature": T.Der2BerryCurvature(**opts),
+        "inv_mass": T.InvMass(**opts), "der3E": T.Der3E(**opts), "der_spin": T.DerSpin(**opts),
+        "der2_spin": T.Der2Spin(**opts), "der_orbital_moment": T.DerOrbitalMoment(**opts),
+        "der2_orbital_moment": T.Der2OrbitalMoment(**opts),
     }
 
 
@@ -563,7 +572,7 @@ def product_tabulators(ctx, s):
 _STATIC_OK = {}
 
 
-def all_static(ctx, s, Ef):
+def all_static(ctx, s, Ef, **opts):
     """every StaticCalculator of calculators.static that can be built from Efermi alone and evaluated on this kind of
     system (probed once on a single k-point; the ones needing matrices the system does not have are skipped)"""
     import inspect
@@ -582,7 +591,7 @@ def all_static(ctx, s, Ef):
             except Exception as e:  # noqa
                 ctx.count(f"oracle.static_skipped.{name}")
         _STATIC_OK[key] = ok
-    return {name: getattr(S, name)(Efermi=Ef) for name in _STATIC_OK[key]}
+    return {name: getattr(S, name)(Efermi=Ef, **opts) for name in _STATIC_OK[key]}
 
 
 def touching_system(rs, nw, k0, m):
@@ -779,7 +788,83 @@ def case_routes(ctx, case):
                     dict(info, route="path:" + q), tol=1e-7)
 
 
-RUNNERS = {"routes": case_routes, "touch_k": case_touch_k, "touch_run": case_touch_run, "periodic": case_periodic, "periodic_kp": case_periodic_kp, "gauge_k": case_gauge_k, "gauge_run": case_gauge_run}
+def merged_multiplet_system(rs, n0, m, touch, k0, paired):
+    """H = H0 (x) 1_m with arbitrary Hermitian external matrices (every band m-fold degenerate at every k), tuned so
+    that `touch` consecutive multiplets coincide at k0: an exactly (m*touch)-fold degenerate subspace there (two
+    Kramers pairs touching for m = 2, touch = 2), whose velocity / spin blocks are not proportional to 1"""
+    from .c27 import tune_spectrum
+    s = multiplet_system(rs, n0, m, paired)
+    g0 = int(rs.randint(0, n0 - touch + 1))
+
+    def modify(e):
+        lev = [e[g * m] for g in range(n0)]
+        for j in range(1, touch):
+            lev[g0 + j] = lev[g0]
+        for g in range(g0 + touch, n0):
+            lev[g] = max(lev[g], lev[g0] + 0.4 + 0.3 * (g - g0 - touch))
+        for g in range(g0):
+            lev[g] = min(lev[g], lev[g0] - 0.4 - 0.3 * (g0 - 1 - g))
+        return np.repeat(np.array(lev), m)
+    e2 = tune_spectrum(s, k0, modify)
+    return s, g0 * m, e2
+
+
+def case_options(ctx, case):
+    """the calculators' grouping options degen_thresh x degen_Kramers on systems with exact multiplets of size
+    m*touch (2, 3, 4, 6) at a grid k-point: tabulated and integrated results for random_gauge on/off and k vs k+G"""
+    from ..wbsys import wb
+    from wannierberri.calculators.tabulate import TabulatorAll
+    rs = np.random.RandomState(case["seed"])
+    k0 = np.array(case["k0"], dtype=float)
+    s, i0, e2 = merged_multiplet_system(rs, case["n0"], case["m"], case["touch"], k0, case["paired"])
+    size = case["m"] * case["touch"]
+    opts = dict(degen_thresh=case["degen_thresh"], degen_Kramers=case["kramers"])
+    G = np.array(case["G"], dtype=int)
+    with quiet():
+        E = np.array(wb.evaluate_k(s, k=k0, quantities=["energy"]))
+    groups = band_groups(E)
+    ctx.case(signature=("options", case["seed"], case["n0"], case["m"], case["touch"], case["kramers"], case["degen_thresh"]),
+             nontrivial=max(b - a for a, b in groups) == size)
+    ctx.count(f"oracle.options.multiplet_size={max(b - a for a, b in groups)}")
+    if max(b - a for a, b in groups) != size:
+        ctx.fail(f"generator: expected a {size}-fold multiplet at k0, found groups {groups}", dict(case, energies=E))
+        return
+    res = []
+    for kk, rg in ((k0, False), (k0, True), (k0 + G, False)):
+        tabs = tabulators(**opts)
+        tabs.update(product_tabulators(ctx, s))
+        for t_ in tabs.values():
+            t_.degen_thresh, t_.degen_Kramers = opts["degen_thresh"], opts["degen_Kramers"]
+        with quiet():
+            np.random.seed(case["seed"] % 10000 + 5)
+            r = wb.evaluate_k(s, k=kk, calculators={"tab": TabulatorAll(tabs, mode="grid")}, parameters_K={"random_gauge": rg})
+        res.append(r.results)
+    info = dict(case, energies_at_k0=E, groups=groups)
+    for name in res[0]:
+        compare(ctx, f"{name} (degen_thresh={opts['degen_thresh']}, degen_Kramers={opts['degen_Kramers']}) at a {size}-fold "
+                     f"point: random_gauge=True vs False", res[0][name].data, res[1][name].data, dict(info, quantity=name))
+        compare(ctx, f"{name} (degen_thresh={opts['degen_thresh']}, degen_Kramers={opts['degen_Kramers']}) at a {size}-fold "
+                     f"point: k vs k+G", res[0][name].data, res[2][name].data, dict(info, quantity=name))
+    if case.get("run"):
+        et = e2[i0]
+        Ef = np.linspace(et - 0.3, et + 0.3, 7)
+        NKFFT = np.array(s.NKFFT_recommended)
+        NKFFT = NKFFT + (NKFFT % 2)
+        rr = []
+        for rg in (False, True):
+            calcs = all_static(ctx, s, Ef, **opts)
+            with quiet():
+                np.random.seed(case["seed"] % 10000 + 9)
+                grid = wb.Grid(s, NK=NKFFT, NKFFT=NKFFT)
+                rr.append(wb.run(s, grid=grid, calculators=calcs, parallel=False, print_Kpoints=False, symmetrize=False,
+                                 parameters_K={"random_gauge": rg}))
+        for name in rr[0].results:
+            compare(ctx, f"integrated {name} (degen_thresh={opts['degen_thresh']}, degen_Kramers={opts['degen_Kramers']}) on a "
+                         f"grid containing a {size}-fold point: random_gauge=True vs False",
+                    rr[0].results[name].data, rr[1].results[name].data, dict(info, calculator=name, Efermi=Ef, NK=NKFFT))
+
+
+RUNNERS = {"options": case_options, "routes": case_routes, "touch_k": case_touch_k, "touch_run": case_touch_run, "periodic": case_periodic, "periodic_kp": case_periodic_kp, "gauge_k": case_gauge_k, "gauge_run": case_gauge_run}
 
 
 def rand_G(rng):
@@ -803,12 +888,12 @@ def rand_k(rng):
 def oracle(ctx, scale):
     rng = ctx.rng
     cases = []
-    for _ in range(ctx.n(6, 80) * scale):
+    for _ in range(ctx.n(5, 80) * scale):
         cases.append(dict(kind="periodic", seed=rng.getrandbits(31), nw=rng.randint(2, 5), k=rand_k(rng), G=rand_G(rng)))
     for _ in range(ctx.n(4, 30) * scale):
         cases.append(dict(kind="periodic_kp", coef=[rng.choice([1.0, 0.5, 2.0]), rng.choice([1.0, -0.7]), rng.choice([0.0, 0.4])],
                           kmax=rng.choice([1.0, 0.5, 2.0]), k=[rng.randint(-16, 16) / 32 for _ in range(3)], G=rand_G(rng)))
-    for _ in range(ctx.n(7, 60) * scale):
+    for _ in range(ctx.n(5, 60) * scale):
         cases.append(dict(kind="gauge_k", seed=rng.getrandbits(31), n0=rng.randint(1, 3), m=rng.choice([2, 2, 3]),
                           paired=rng.random() < 0.5, thresh=rng.choice([None, 1e-6, 1e-3])))
     for _ in range(ctx.n(2, 12) * scale):
@@ -821,7 +906,7 @@ def oracle(ctx, scale):
     for _ in range(ctx.n(1, 10) * scale):
         cases.append(dict(kind="touch_run", seed=rng.getrandbits(31), nw=rng.randint(3, 4), m=rng.choice([2, 2, 3]),
                           k0=rng.choice(K0S), NKdiv=[1, 1, 1]))
-    for it in range(ctx.n(6, 40) * scale):
+    for it in range(ctx.n(5, 40) * scale):
         sysk = rng.choice(["touching", "pt", "multiplet"])
         c = dict(kind="routes", seed=rng.getrandbits(31), system=sysk, G=rand_G(rng), m=rng.choice([2, 2, 3]),
                  path=(rng.choice([12, 20]) if it % 3 == 0 else 0))
@@ -832,6 +917,15 @@ def oracle(ctx, scale):
             if sysk == "pt":
                 c["m"] = 2
         cases.append(c)
+    for it in range(ctx.n(5, 40) * scale):
+        m, touch = rng.choice([(2, 2), (2, 2), (2, 3), (3, 2), (2, 1), (3, 1), (4, 1)])
+        kr = rng.random() < 0.5
+        n0 = rng.randint(touch, touch + 1)
+        if kr and (n0 * m) % 2:
+            n0 += 1
+        cases.append(dict(kind="options", seed=rng.getrandbits(31), n0=n0, m=m, touch=touch, paired=rng.random() < 0.5,
+                          kramers=kr, degen_thresh=rng.choice([1e-4, 1e-3, 0.05]), k0=rng.choice(K0S), G=rand_G(rng),
+                          run=(it % 3 == 0)))
     for case in cases:
         ctx.count(f"oracle.{case['kind']}")
         with ctx.attempt(f"{case['kind']} case", case):
